@@ -3,5 +3,5 @@
    nat, positive, Z, order, sx, ty, val ... are extracted as the inductives they are.
    No Extract Constant / Extract Inductive of our own. *)
 From Coq Require Import extraction.Extraction extraction.ExtrOcamlBasic.
-From OvldV Require Import Model.Sx Model.Run.
+From OvldV Require Import Model.Sx Gen.RunAll.
 Extraction "model.ml" run.
